@@ -377,7 +377,14 @@ func (w *world) indexMutation(i int) {
 	tm := time.Now().UnixNano()
 	valid := fmt.Sprintf("v1 %x %x %20d %20d\n", id[:], out[:], size, tm)
 	var e string
-	m := w.rng.Intn(16)
+	// 20-byte numeric fields that keep the entry's length and separators intact
+	hostileNum := []string{
+		strings.Repeat(" ", 20), strings.Repeat(" ", 19) + "-", strings.Repeat(" ", 19) + "+", "5" + strings.Repeat(" ", 19),
+		strings.Repeat(" ", 16) + "0x10", strings.Repeat(" ", 17) + "1 2", strings.Repeat("0", 20), strings.Repeat(" ", 18) + "-0",
+		strings.Repeat(" ", 17) + "1e3", strings.Repeat("\x00", 20), strings.Repeat(" ", 19) + "\n", strings.Repeat("9", 20),
+		strings.Repeat(" ", 1) + "9223372036854775808", strings.Repeat("-", 20), "\t" + strings.Repeat(" ", 18) + "7",
+	}
+	m := w.rng.Intn(19)
 	switch m {
 	case 0:
 		e = valid[:w.rng.Intn(len(valid))]
@@ -410,6 +417,19 @@ func (w *world) indexMutation(i int) {
 		e = fmt.Sprintf("v1 %X %x %20s %20d\n", id[:], out[:], "+5", tm)
 	case 14: // valid entry pointing to an output that does not exist
 		e = valid
+	case 15: // hostile size field, everything else well formed
+		e = fmt.Sprintf("v1 %x %x %s %20d\n", id[:], out[:], hostileNum[w.rng.Intn(len(hostileNum))], tm)
+	case 16: // hostile time field
+		e = fmt.Sprintf("v1 %x %x %20d %s\n", id[:], out[:], size, hostileNum[w.rng.Intn(len(hostileNum))])
+	case 17: // a run of the valid entry overwritten in place (length kept)
+		b := []byte(valid)
+		a := w.rng.Intn(len(b))
+		n := 1 + w.rng.Intn(24)
+		fill := []byte{' ', '0', '-', 0, '\n', 'f'}[w.rng.Intn(6)]
+		for k := a; k < a+n && k < len(b); k++ {
+			b[k] = fill
+		}
+		e = string(b)
 	default:
 		b := make([]byte, w.rng.Intn(400))
 		w.rng.Read(b)
@@ -507,7 +527,7 @@ func runHistory(dir string, c *cache.Cache, hidx int, seed int64) {
 func main() {
 	vlib.Main("C05", "exploration", 10*time.Minute, func(r *vlib.Run) {
 		run = r
-		r.Rule("histories of 30-200 steps over 6 action ids and 8 size classes (0,1,17,300,32KiB-1,32KiB,32KiB+1,100KiB; some content shared between ids): Put/PutBytes, Get/GetBytes/GetFile/OutputFile, interleaved with damage to index and output files (truncate, extend, flip, delete, replace with another entry's file, replace with a directory, same-length garbage), 15 structured index-entry mutations and random bytes, and repairing Puts. Every history is distinct (own PRNG stream); non-trivial = history executed with at least 30 steps.")
+		r.Rule("histories of 30-200 steps over 6 action ids and 8 size classes (0,1,17,300,32KiB-1,32KiB,32KiB+1,100KiB; some content shared between ids): Put/PutBytes, Get/GetBytes/GetFile/OutputFile, interleaved with damage to index and output files (truncate, extend, flip, delete, replace with another entry's file, replace with a directory, same-length garbage), 18 structured index-entry mutations (every field, incl. hostile 20-byte numeric fields such as all blanks / sign only / digits then blanks, and in-place overwritten runs) and random bytes, and repairing Puts. Every history is distinct (own PRNG stream); non-trivial = history executed with at least 30 steps.")
 		r.Assume("crafted index entries never point to an existing output of another id (so 'bytes never stored under this id' is a sound ownership check); directory obstructions are removed before a repairing Put")
 		W := runtime.NumCPU()
 		nh := r.Pick(600, 30000)
